@@ -78,7 +78,11 @@ Codecs == {"gofs", "gomanifest", "py"}
 
 (* Mutations after which the text is certainly outside the grammar.        *)
 Malformed == {"past_end", "no_newline", "no_locators", "no_files", "bad_pos", "bad_size",
-              "two_fields", "no_stream_name"}
+              "two_fields", "no_stream_name",
+              "huge_pos", "huge_len"}     \* a position / size near 2^31, 2^32, 2^63, 2^64: digits, but far past the stream
+(* Mutations after which the text may still denote something (the format   *)
+(* sets no limit on a block's size hint): only "no panic, no hang" applies. *)
+Unlimited == {"huge_blocksize"}
 (* <<codec, mutation>> pairs where an error return exists and is demanded. *)
 MustReject == ({"gofs"} \X Malformed) \cup ({"gomanifest"} \X (Malformed \ {"no_newline"}))
 
